@@ -108,8 +108,14 @@ def gen_case(rng, name, tier, k):
     if large:
         windowed = False
     big = 8 if tier == "quick" else 9
+    cheap = name in ("LS-additive", "LS-multiplicative", "DC-additive", "DC-multiplicative", "QM-parametric", "ECDFM", "QM-nonparametric")
+    small_step = name != "ISIMIP-window" and not large and not n_exact and k % 3 == 1
+    if small_step:
+        windowed = True  # every third case: a step that divides 365 (the default 1, also 5 and 73) over a span with a leap-year 31 Dec
     if windowed:
         S = rng.choice([7, 15, 31, 61])
+        if small_step:
+            S = rng.choice([1, 5, 73]) if cheap else rng.choice([5, 73])
         L = max(S, rng.choice([61, 91]))
         mode = [L, S]
         nyO, nyH = rng.randint(3, 5), rng.randint(3, 5)   # at least 3 * 61 = 183 values per window ...
@@ -136,6 +142,13 @@ def gen_case(rng, name, tier, k):
     if n_exact:
         rec.update(n_exact=n_exact, short=False, ymode=None)
     rec["kinds"] = [probes.pick_kind(rng) for _ in range(3)]  # the three time axes, each in one of the accepted encodings
+    if windowed:
+        rec["y0"] = rec["y0"] - rec["y0"] % 4 + 3  # y0 + 1 is a leap year: inside the obs span and inside the cm_hist span
+    if name in ("CDFt", "QDM-absolute", "ISIMIP", "QM-nonparametric", "SDM-absolute", "LS-additive") and k % 3 == 2 and not n_exact and not large:
+        # values stored with 0.1 K precision (many ties) and a skewed distribution — legitimate input for every method
+        rec["ties"] = True
+        rec["short"] = False
+        rec["nyO"], rec["nyH"] = max(rec["nyO"], 2), max(rec["nyH"], 2)
     if name in PR_LIKE and k % 2 == 0:
         rec["flux"] = K.FLUX[(k // 2) % len(K.FLUX)]  # pr in kg m-2 s-1: magnitudes 1e-5 ... 1e-9
     return rec
@@ -169,6 +182,11 @@ def build(rec):
         cen = lambda d: (np.arange(d.size) - (d.size - 1) / 2.0) / 365.25  # noqa: E731
         obs = K.tas_series(nprs, dO, 283.0, sigma, amp=amp) + rec.get("slope_obs", 0.0) * cen(dO)
         H = K.tas_series(nprs, dH, 283.0 + rec["sigma_bias"] * sigma, sigma * rec["sd_ratio"], amp=amp) + rec.get("slope_H", 0.0) * cen(dH)
+        if rec.get("ties"):
+            skew = lambda n: (nprs.gamma(2.0, 1.0, n) - 2.0) / np.sqrt(2.0)  # noqa: E731  (mean 0, sd 1, skewness 1.4)
+            obs = np.round(283.0 + 8 * np.sin(2 * np.pi * K.doy_of(dO) / 365.25) * (amp / 8.0) + sigma * skew(dO.size), 1)
+            H = np.round(283.0 + rec["sigma_bias"] * sigma + 8 * np.sin(2 * np.pi * K.doy_of(dH) / 365.25) * (amp / 8.0)
+                         + sigma * rec["sd_ratio"] * skew(dH.size), 1)
     return dict(obs=obs, H=H, dO=dO, dH=dH, sigma=sigma)
 
 
@@ -236,7 +254,10 @@ def run_case(rec):
     want_n = obs.size if name.startswith("DC-") else H.size
     info = {"n_obs": int(obs.size), "n_hist": int(H.size), "clause": None}
     if out.shape != (want_n,) or not np.isfinite(out).all():
-        return f"{name}: output shape {out.shape} / non-finite values for finite input", info
+        bad = np.where(~np.isfinite(out))[0] if out.shape == (want_n,) else np.array([], dtype=int)
+        dd = dO if name.startswith("DC-") else dH
+        return (f"{name} (windows {mode}, year windows {ymode}, n_obs={obs.size}, n_hist={H.size}): output shape {out.shape}; {bad.size} steps are "
+                f"NaN / unassigned for finite input" + (f" (first: step {int(bad[0])}, {dd[int(bad[0])]})" if bad.size and name != "ISIMIP-window" else "")), info
     bias = float(np.mean(H) - np.mean(obs))
     resid = float(np.mean(out) - np.mean(obs))
     info.update(bias=bias, residual=resid)
@@ -249,13 +270,14 @@ def run_case(rec):
         if err > tol:
             return f"{where}: DeltaChange with an unchanged model does not return obs (max deviation {err:.3g} > {tol:.3g})", info
         return None, info
-    if name == "QM-nonparametric" and window_free and obs.size == H.size:
+    ties = bool(rec.get("ties"))  # the rank-transfer theorems need a tie-free cm_hist: tied data is judged by the loose clause
+    if name == "QM-nonparametric" and window_free and obs.size == H.size and not ties:
         info["clause"] = "exact: sorted(out) == sorted(obs)"
         if not np.array_equal(np.sort(out), np.sort(obs)):
             d = float(np.max(np.abs(np.sort(out) - np.sort(obs))))
             return f"{where}: equal sample sizes but the output is not the observed multiset (max deviation of order statistics {d:.3g})", info
         return None, info
-    if name == "CDFt" and window_free and ymode is None and obs.size == H.size and obs.size >= 2:
+    if name == "CDFt" and window_free and ymode is None and obs.size == H.size and obs.size >= 2 and not ties:
         # Props.C01.cdft_rank_transfer_clamped: every output is the observation of the same rank, clamped to the range of
         # the shifted model sample H' = H + (mean obs - mean H)
         info["clause"] = "exact: sorted(out) == clip(sorted(obs), range of shifted cm_hist) to rounding"
@@ -272,7 +294,7 @@ def run_case(rec):
         if d > 1e-6 * scale or abs(resid) > tol * 10:
             return f"{where}: equal sample sizes but the output is not the observed multiset (max deviation {d:.3g}, residual mean bias {resid:.3g})", info
         return None, info
-    if name in EXACT_WINDOW_FREE_MEAN and window_free and ymode is None:
+    if name in EXACT_WINDOW_FREE_MEAN and window_free and ymode is None and not (ties and name == "QDM-absolute"):
         info["clause"] = "exact: mean(out) == mean(obs)"
         if abs(resid) > tol:
             return f"{where}: residual mean bias {resid:.3g} > {tol:.3g} in an exact configuration", info
@@ -291,6 +313,10 @@ def run_case(rec):
         return None, info
     # tol of the loose clause: rounding, plus the resolution of an empirical quantile grid of this size
     tol_loose = max(tol, 2.0 * float(np.ptp(obs)) / nmin)
+    if ties:
+        # tied data is known to its storage resolution only (0.1 K here): a rank-based method resolves a tie group to one of its
+        # ends, which moves the mean by up to that resolution whatever the bias is
+        tol_loose += 0.1
     info["tol_loose"] = tol_loose
     if abs(resid) > max(tol_loose, 0.25 * abs(bias)):
         return (f"{where}: residual mean bias {resid:+.4g} is not a small fraction of the original bias {bias:+.4g} "
